@@ -697,6 +697,10 @@ func fragmentStart(line string, byteCol int, ctxType CompletionContextType) (int
 	case ContextCommodity:
 		if strings.HasPrefix(line, directiveCommodity) {
 			start = len(directiveCommodity)
+			// the opening quote of a quoted symbol is not part of the name being typed
+			if start < len(before) && before[start] == '"' {
+				start++
+			}
 		} else {
 			// inside the first amount nothing typed counts as a commodity fragment
 			amountEnd := 0
